@@ -37,3 +37,30 @@ Theorem c03_sum_rule_all_index_positions N (Phi : tuple -> R) n :
   forall k a t, length t = n -> k < n -> pos_sum N Phi k a t = 0%R.
 Proof. intros Hsym. exact (sum_rule_all_positions N Phi Hsym n). Qed.
 Print Assumptions c03_sum_rule_all_index_positions.
+
+(** The sum-rule matrix I - A^T A / N lies between 0 and I: rows built for trailing tuples with an
+    independent first atom are duplicate-free, have at most N entries, and are pairwise disjoint; hence
+    |A x|^2 <= N |x|^2 (Cauchy-Schwarz per row).  So its eigenvalues are in [0,1] for every valid table,
+    every order and every cutoff mask [keep] (the eigen-solvers' window check cannot fire, and the hypothesis
+    0 <= M <= I of the C15 theorems holds). *)
+Theorem c03_rows_duplicate_free N tp n keep J carts :
+  valid_tp N tp = true -> 0 < n -> in_range N J -> length J + 1 = n -> length carts = n ->
+  Forall (fun c => c < 3) carts -> J <> [] -> In (hd 0 J) (indep_t N tp) ->
+  NoDup (srow N tp keep J carts) /\ length (srow N tp keep J carts) <= N.
+Proof. intros Hv Hn. exact (srow_nodup N tp Hv n Hn keep J carts). Qed.
+Print Assumptions c03_rows_duplicate_free.
+
+Theorem c03_rows_disjoint N tp n keep keep' J carts J' carts' e :
+  valid_tp N tp = true -> 0 < n ->
+  in_range N J -> in_range N J' -> length J + 1 = n -> length J' + 1 = n -> length carts = n -> length carts' = n ->
+  Forall (fun c => c < 3) carts -> Forall (fun c => c < 3) carts' -> J <> [] ->
+  In (hd 0 J) (indep_t N tp) -> In (hd 0 J') (indep_t N tp) ->
+  In e (srow N tp keep J carts) -> In e (srow N tp keep' J' carts') -> J = J' /\ carts = carts'.
+Proof. intros Hv Hn. exact (srows_disjoint N tp Hv n Hn keep keep' J carts J' carts' e). Qed.
+Print Assumptions c03_rows_disjoint.
+
+Theorem c03_quadratic_bound (N : nat) (rows : list (list positive)) (E : list positive) (x : positive -> R) :
+  NoDup (concat rows) -> incl (concat rows) E -> (forall r, In r rows -> length r <= N) ->
+  (rsum (map (fun r => rsum (map x r) * rsum (map x r)) rows) <= INR N * rsum (map (fun e => x e * x e) E))%R.
+Proof. exact (sumrule_quadratic_bound N rows E x). Qed.
+Print Assumptions c03_quadratic_bound.
